@@ -615,7 +615,8 @@ impl<'a> Exec<'a> {
             _ => unreachable!(),
         };
         if fresh_waker && op.polled {
-            let old = std::mem::replace(&mut self.ops[i].waker, WakerHandle::new());
+            let next = self.ops[i].waker.replacement();
+            let old = std::mem::replace(&mut self.ops[i].waker, next);
             if self.ops[i].blocked && self.ops[i].phase == Phase::NotSubmitted {
                 let at = self.ops[i].wakes_at_poll;
                 self.ops[i].stale_blocked.push((old, at));
